@@ -173,6 +173,36 @@ func c04(c *Ctx) {
 		q = &pathQ{fn: f, fromEntry: true, to: first, barrier: pfx}
 		c.check(q.bypass() == nil, r, fnName(f)+":source-prefix-filter", c.pos(f.Pos()), "entries are serialised only past hasPrefix(key, SourcePrefix)", "entries outside the index's source prefix are indexed")
 	}
+	// whoever swaps the tree of an indexer re-anchors the hub that gates reads: a reopened (compacted) index is older
+	// than what the hub reports as indexed, and "indexing has caught up with n" must stay true of the tree in use
+	rsw := "C04.3/index-swap-reanchors-waiters"
+	nsw := 0
+	for _, g := range c.allFns {
+		if !fnInPkgs(g, []string{"embedded/store"}) || len(g.Blocks) == 0 {
+			continue
+		}
+		var swaps []ssa.Instruction
+		for _, in := range sites(g, storeTo("indexer.index")) {
+			if !isFreshAlloc(storeBase(in)) {
+				swaps = append(swaps, in)
+			}
+		}
+		if len(swaps) == 0 {
+			continue
+		}
+		nsw++
+		recede := callTo("embedded/watchers.(*WatchersHub).RecedeTo@wHub")
+		noHub := whenCond(true, func(a string) bool { return hasFieldSuffix(strings.TrimSuffix(strings.TrimPrefix(a, "("), " == nil)"), "wHub") || (strings.Contains(a, "wHub") && strings.Contains(a, "nil")) })
+		notBehind := whenCond(false, func(a string) bool { return strings.Contains(a, ").Ts[") && strings.Contains(a, " < ") })
+		q := &pathQ{fn: g, from: swaps, to: successReturn, via: recede, barrier: anyEdge(noHub, notBehind)}
+		w := q.bypass()
+		c.check(w == nil, rsw, fnName(g)+":index-replaced", c.pos(swaps[0].Pos()), "after the tree is replaced every successful return passes wHub.RecedeTo unless there is no hub or the new tree is not behind",
+			"the tree of an indexer is replaced and the hub that gates reads keeps its old position: lookups are served from the older tree while indexing is reported as caught up: "+c.witnessStr(w))
+		c.ruleErrChecked(rsw, g, "wHub.RecedeTo", recede, 1)
+	}
+	if nsw < 1 {
+		c.undecided(rsw, "floor", "no function replaces indexer.index (restartIndex confirmed by hand)")
+	}
 	if g := c.mustFn("C04.3/logical-time", idxT+"doIndexing"); g != nil {
 		for _, in := range sites(g, callTo(whDoneUpto+"@wHub")) {
 			a := desc(callOf(in).Args[1])
